@@ -1,7 +1,7 @@
 """loops, with, try, guard refinement"""
 import ast
 from .absval import (V, Const, Unknown, Sym, Seq, BitV, Lin, Bytes, as_bitv, as_lin, const_of, norm,
-                     interval, with_range, lin_add, lin_norm, lin_scale)
+                     interval, with_range, lin_add, lin_norm, lin_scale, NBITS)
 from .interp import Ref, Raised, path_text
 from .interp_expr import deps_of, ty_of
 from .model import AnalysisError
@@ -410,6 +410,20 @@ class FlowMixin:
                         nz = set(st.extra.get("nonzero", ()))
                         nz.add(cur.key())
                         st.extra["nonzero"] = nz
+            return
+        if isinstance(node, ast.BinOp) and isinstance(node.op, ast.BitAnd) and not pol:
+            # (x & mask) is zero: every bit of x selected by a constant mask is zero
+            for xn, mn in ((node.left, node.right), (node.right, node.left)):
+                if not isinstance(xn, (ast.Name, ast.Attribute)):
+                    continue
+                cur = self.get_path_value(xn, st, fr)
+                mv = self.peek(mn, st, fr)
+                m = const_of(norm(mv)) if mv is not None else None
+                if isinstance(cur, BitV) and isinstance(m, int):
+                    bits = tuple(0 if (m >> i) & 1 else b for i, b in enumerate(cur.bits))
+                    hi = 0 if (m < 0 or m >> NBITS) else cur.hi
+                    self.set_path_value(xn, norm(BitV(bits, hi if m < 0 else cur.hi, None)), st, fr)
+                    return
             return
         if isinstance(node, ast.Call) and isinstance(node.func, ast.Name):
             if node.func.id == "isinstance" and len(node.args) == 2 and isinstance(node.args[0], (ast.Name, ast.Attribute)):
